@@ -40,7 +40,8 @@ type World struct {
 	Offline    bool // a local block miss returns not-found at once (isolated recovery)
 	HoldOnCut  bool // deliveries across a cut link stay pending (true) or are dropped (false)
 	LogObs     bool
-	FailWant   map[string]bool // cid string -> fail next want with an error (C11)
+	EagerFetch bool           // blocks held by a linked live peer are fetched without a kernel step
+	FailWant   map[string]int // cid string -> how many of the next wants for it fail with an error
 	DiskFault  func(n *Node, kind, space, key string) error
 	OnPublish  func(src int, topic string, data []byte)
 	OnEffect   func(e *Effect)
@@ -50,7 +51,7 @@ type World struct {
 }
 
 func NewWorld() *World {
-	return &World{cut: map[[2]int]bool{}, topics: map[string]int{}, Stats: map[string]int{}, HoldOnCut: true, FailWant: map[string]bool{}}
+	return &World{cut: map[[2]int]bool{}, topics: map[string]int{}, Stats: map[string]int{}, HoldOnCut: true, FailWant: map[string]int{}}
 }
 
 func (w *World) stat(k string) { w.Stats[k]++ }
@@ -200,16 +201,24 @@ type Node struct {
 // Inc is one process lifetime of a node. A detached incarnation is a zombie: nothing it
 // does reaches the disk or the network.
 type Inc struct {
-	Node     *Node
-	N        int
-	detached bool
-	subs     map[string][]*Sub
-	view     map[string]map[int]bool
-	pubseq   int
-	handlers map[string]network.StreamHandler // libp2p stream handlers (stub host)
-	Ctx      context.Context
-	Cancel   context.CancelFunc
-	offline  bool // a local block miss returns not-found at once (like an offline IPFS node)
+	Node      *Node
+	N         int
+	detached  bool
+	subs      map[string][]*Sub
+	view      map[string]map[int]bool
+	pubseq    int
+	handlers  map[string]network.StreamHandler // libp2p stream handlers (stub host)
+	Ctx       context.Context
+	Cancel    context.CancelFunc
+	offline   bool // a local block miss returns not-found at once (like an offline IPFS node)
+	slowLocal bool // local block reads wait for a kernel step as well (slow disk)
+}
+
+// SetSlowLocal makes reads of locally held blocks wait for the kernel, like remote ones.
+func (i *Inc) SetSlowLocal(b bool) {
+	i.Node.W.mu.Lock()
+	i.slowLocal = b
+	i.Node.W.mu.Unlock()
 }
 
 func (i *Inc) SetOffline(b bool) {
@@ -414,7 +423,7 @@ func (w *World) enabledLocked(p *Pend) bool {
 		if !p.inc.live() {
 			return false
 		}
-		if w.FailWant[p.c.String()] {
+		if w.FailWant[p.c.String()] > 0 {
 			return true
 		}
 		return w.providerLocked(p) != nil
@@ -500,8 +509,10 @@ func (w *World) execLocked(p *Pend) {
 			delete(m, p.src)
 		}
 	case pkWant:
-		if w.FailWant[p.c.String()] {
-			delete(w.FailWant, p.c.String())
+		if w.FailWant[p.c.String()] > 0 {
+			if w.FailWant[p.c.String()]--; w.FailWant[p.c.String()] == 0 {
+				delete(w.FailWant, p.c.String())
+			}
 			w.stat("want-failed")
 			p.done <- errors.New("sim: injected fetch failure")
 			return
@@ -582,10 +593,10 @@ func (w *World) IsCut(a, b int) bool { w.mu.Lock(); defer w.mu.Unlock(); return 
 // ------------------------------------------------------------------------------------------
 
 type simDS struct {
-	inc    *Inc
-	kind   string // "cache" | "ks"
-	space  string
-	closed bool
+	inc     *Inc
+	kind    string // "cache" | "ks"
+	space   string
+	closed  bool
 	onClose func()
 }
 
